@@ -11,6 +11,10 @@
   4. `unview_window_putB`                                  (write-back = `putB` of `paste`)
   5. `liftM2`, `liftM3` and the call rules `liftM2_of`, `liftM3_of` (whole matrices),
      `call2_window`, `call3_window` (result written through a window; the read-only operands are windows, too)
+  6. translated callees applied to a `CLoop.view` itself: `AgreeOn` (agreement on a region) with
+     `view_agree_window`, `ofView_congr`, `unview_congr`, `AgreeOn.view/.unview/.upd2/.at`, `liftM2_congr(_nat)`,
+     `liftM3_congr(_nat)`, `step2_agree`, `step3_agree`, `loop_sim` (simulation of two loops),
+     `unview_window_of_excess`, `unview_window_of_agree`
   Core Lean tactics only.
 -/
 import M4riProofs.GenTie
@@ -493,6 +497,101 @@ theorem liftM3_congr (op : BMat → BMat → BMat → BMat) {mC mC' mA mA' mB mB
   unfold liftM3
   rw [ofView_congr cr cc cw ch ch' hC, ofView_congr ar ac aw ah ah' hA, ofView_congr br bc bw bh bh' hB]
 
+theorem liftM2_congr_nat (op : BMat → BMat → BMat) {mA mA' mB mB' : Int → Int → BitVec 64}
+    (ar aw br bw : Nat) (ac bc : Int) (ah ah' bh bh' : BitVec 64) (hA : AgreeOn ar aw mA mA')
+    (hB : AgreeOn br bw mB mB') :
+    liftM2 op ⟨mA, (ar : Int), ac, (aw : Int), ah⟩ ⟨mB, (br : Int), bc, (bw : Int), bh⟩
+      = liftM2 op ⟨mA', (ar : Int), ac, (aw : Int), ah'⟩ ⟨mB', (br : Int), bc, (bw : Int), bh'⟩ :=
+  liftM2_congr op _ _ _ _ _ _ _ _ _ _ (by rw [toNat_cast, toNat_cast]; exact hA)
+    (by rw [toNat_cast, toNat_cast]; exact hB)
+
+theorem liftM3_congr_nat (op : BMat → BMat → BMat → BMat) {mC mC' mA mA' mB mB' : Int → Int → BitVec 64}
+    (cr cw ar aw br bw : Nat) (cc ac bc : Int) (ch ch' ah ah' bh bh' : BitVec 64) (hC : AgreeOn cr cw mC mC')
+    (hA : AgreeOn ar aw mA mA') (hB : AgreeOn br bw mB mB') :
+    liftM3 op ⟨mC, (cr : Int), cc, (cw : Int), ch⟩ ⟨mA, (ar : Int), ac, (aw : Int), ah⟩
+        ⟨mB, (br : Int), bc, (bw : Int), bh⟩
+      = liftM3 op ⟨mC', (cr : Int), cc, (cw : Int), ch'⟩ ⟨mA', (ar : Int), ac, (aw : Int), ah'⟩
+        ⟨mB', (br : Int), bc, (bw : Int), bh'⟩ :=
+  liftM3_congr op _ _ _ _ _ _ _ _ _ _ _ _ _ _ _ (by rw [toNat_cast, toNat_cast]; exact hC)
+    (by rw [toNat_cast, toNat_cast]; exact hA) (by rw [toNat_cast, toNat_cast]; exact hB)
+
+/-- agreement survives a store of the same word -/
+theorem AgreeOn.upd2 {nr nw : Nat} {m m' : Int → Int → BitVec 64} (h : AgreeOn nr nw m m') (r i : Int)
+    {v v' : BitVec 64} (hv : v = v') : AgreeOn nr nw (CLoop.upd2 m r i v) (CLoop.upd2 m' r i v') := by
+  subst hv
+  intro x k hx hk
+  rw [upd2_apply, upd2_apply]
+  split
+  · rfl
+  · exact h x k hx hk
+
+/-- reading inside the region -/
+theorem AgreeOn.at {nr nw : Nat} {m m' : Int → Int → BitVec 64} (h : AgreeOn nr nw m m') (r i : Int)
+    (hr0 : 0 ≤ r) (hr : r < nr) (hi0 : 0 ≤ i) (hi : i < nw) : m r i = m' r i := by
+  have := h r.toNat i.toNat (by omega) (by omega)
+  rw [show ((r.toNat : Nat) : Int) = r by omega, show ((i.toNat : Nat) : Int) = i by omega] at this
+  exact this
+
+/-- simulation of two loops: a relation that the conditions respect and the bodies preserve holds at the end -/
+theorem loop_sim {σ : Type} (R : σ → σ → Prop) {cond cond' : σ → Bool} {body body' : σ → σ}
+    (hc : ∀ s s', R s s' → cond s = cond' s')
+    (hb : ∀ s s', R s s' → cond s = true → R (body s) (body' s')) :
+    ∀ (fuel : Nat) (s s' : σ), R s s' → R (CLoop.loop fuel cond body s) (CLoop.loop fuel cond' body' s') := by
+  intro fuel
+  induction fuel with
+  | zero => intro s s' h; exact h
+  | succ n ih =>
+    intro s s' h
+    rw [loop_succ, loop_succ, ← hc s s' h]
+    by_cases hcs : cond s = true
+    · rw [if_pos hcs, if_pos hcs]
+      exact ih _ _ (hb s s' h hcs)
+    · rw [if_neg hcs, if_neg hcs]
+      exact h
+
+/-- a lifted two-operand call through windows respects agreement (operand `a`, written matrix `m`) -/
+theorem step2_agree (op : BMat → BMat → BMat) {R W RA WA : Nat} {m m' a a' : Int → Int → BitVec 64}
+    (hm : AgreeOn R W m m') (ha : AgreeOn RA WA a a') (ar aw anr anw lr lw nr nw : Nat) (anc nc : Int)
+    (ah bh : BitVec 64) (h1 : ar + anr ≤ RA) (h2 : aw + anw ≤ WA) (h3 : lr + nr ≤ R) (h4 : lw + nw ≤ W) :
+    AgreeOn R W
+      (CLoop.unview m (lr : Int) (lw : Int) (nr : Int) (nw : Int)
+        (liftM2 op ⟨CLoop.view a (ar : Int) (aw : Int), (anr : Int), anc, (anw : Int), ah⟩
+          ⟨CLoop.view m (lr : Int) (lw : Int), (nr : Int), nc, (nw : Int), bh⟩))
+      (CLoop.unview m' (lr : Int) (lw : Int) (nr : Int) (nw : Int)
+        (liftM2 op ⟨CLoop.view a' (ar : Int) (aw : Int), (anr : Int), anc, (anw : Int), ah⟩
+          ⟨CLoop.view m' (lr : Int) (lw : Int), (nr : Int), nc, (nw : Int), bh⟩)) :=
+  AgreeOn.unview hm _ _ _ _ (liftM2_congr_nat op _ _ _ _ _ _ _ _ _ _ (ha.view ar aw anr anw h1 h2)
+    (hm.view lr lw nr nw h3 h4))
+
+/-- a lifted three-operand call through windows respects agreement (written matrix `m`, operands `a`, `b`) -/
+theorem step3_agree (op : BMat → BMat → BMat → BMat) {R W RA WA RB WB : Nat}
+    {m m' a a' b b' : Int → Int → BitVec 64} (hm : AgreeOn R W m m') (ha : AgreeOn RA WA a a')
+    (hb : AgreeOn RB WB b b') (lr lw nr nw ar aw anr anw br bw bnr bnw : Nat) (nc anc bnc : Int)
+    (ch ah bh : BitVec 64) (h3 : lr + nr ≤ R) (h4 : lw + nw ≤ W) (h1 : ar + anr ≤ RA) (h2 : aw + anw ≤ WA)
+    (h5 : br + bnr ≤ RB) (h6 : bw + bnw ≤ WB) :
+    AgreeOn R W
+      (CLoop.unview m (lr : Int) (lw : Int) (nr : Int) (nw : Int)
+        (liftM3 op ⟨CLoop.view m (lr : Int) (lw : Int), (nr : Int), nc, (nw : Int), ch⟩
+          ⟨CLoop.view a (ar : Int) (aw : Int), (anr : Int), anc, (anw : Int), ah⟩
+          ⟨CLoop.view b (br : Int) (bw : Int), (bnr : Int), bnc, (bnw : Int), bh⟩))
+      (CLoop.unview m' (lr : Int) (lw : Int) (nr : Int) (nw : Int)
+        (liftM3 op ⟨CLoop.view m' (lr : Int) (lw : Int), (nr : Int), nc, (nw : Int), ch⟩
+          ⟨CLoop.view a' (ar : Int) (aw : Int), (anr : Int), anc, (anw : Int), ah⟩
+          ⟨CLoop.view b' (br : Int) (bw : Int), (bnr : Int), bnc, (bnw : Int), bh⟩)) :=
+  AgreeOn.unview hm _ _ _ _ (liftM3_congr_nat op _ _ _ _ _ _ _ _ _ _ _ _ _ _ _ (hm.view lr lw nr nw h3 h4)
+    (ha.view ar aw anr anw h1 h2) (hb.view br bw bnr bnw h5 h6))
+
+/-- write-back of a result that is only known on the window (a translated callee run on the view) -/
+theorem unview_window_of_agree (M : Mzd) (hM : M.WF) (lr lc hr hc : Nat) (hlc : lc % 64 = 0) (hr2 : hr ≤ M.nrows)
+    (hc2 : hc ≤ M.ncols) (X : BMat) (hXr : X.nrows = hr - lr) (hXc : X.ncols = hc - lc)
+    (res : Int → Int → BitVec 64)
+    (h : AgreeOn (hr - lr) ((hc - lc + 63) / 64) res (memOf ((M.window lr lc hr hc).putB X))) :
+    CLoop.unview (memOf M) (lr : Int) ((lc / 64 : Nat) : Int) ((hr - lr : Nat) : Int)
+        (((hc - lc + 63) / 64 : Nat) : Int) res
+      = memOf (M.putB (M.toB.paste lr lc X)) := by
+  rw [unview_congr _ _ _ _ _ h]
+  exact unview_window_putB M hM lr lc hr hc hlc hr2 hc2 X hXr hXc
+
 /-! ### 7. values: what a sequence of write-backs through windows leaves in the parent -/
 
 /-- the state after a write-back is again a `putB` state: shape, well-formedness, abstract value -/
@@ -501,3 +600,11 @@ theorem putB_state {M : Mzd} (hM : M.WF) {Y : BMat} (hY : Y.WF) (hr : Y.nrows = 
   ⟨Mzd.WF_putB hM Y, Mzd.toB_putB hM hY hr hc, rfl, rfl⟩
 
 end M4ri.GenTieView
+
+#print axioms M4ri.GenTieView.ofView_of
+#print axioms M4ri.GenTieView.mzdInitWindow_eq
+#print axioms M4ri.GenTieView.window_toB'
+#print axioms M4ri.GenTieView.unview_window_putB
+#print axioms M4ri.GenTieView.call2_window
+#print axioms M4ri.GenTieView.call3_window
+#print axioms M4ri.GenTieView.unview_window_of_agree
